@@ -41,6 +41,8 @@ type verifPipelineCase struct {
 	// the outgoing queues of the OTHER three pipelines are filled to capacity first (their producers have stalled) and emptied
 	// afterwards; this pipeline must not care
 	FillOthers bool `json:"fill_others"`
+	// run with the -verbose option on (the log itself is discarded)
+	Verbose bool `json:"verbose"`
 	// enterprise elements to install into ipfix.InfoModel first: [enterprise no, element id, FieldType]
 	ExtElements [][3]uint32 `json:"ext_elements"`
 }
@@ -96,6 +98,7 @@ func verifPipeline(raw []byte) interface{} {
 	opts = NewOptions()
 	opts.IPFIXUDPSize, opts.NetflowV9UDPSize, opts.NetflowV5UDPSize, opts.SFlowUDPSize = c.UDPSize, c.UDPSize, c.UDPSize, c.UDPSize
 	opts.SFlowTypeFilter = c.Filter
+	opts.Verbose = c.Verbose
 	logger = log.New(ioutil.Discard, "", 0)
 	opts.Logger = logger
 
